@@ -1,4 +1,5 @@
 mod cmp;
+mod corpus;
 mod eval;
 mod findsem;
 mod fnmatch;
@@ -9,6 +10,7 @@ mod policy;
 mod rec;
 mod report;
 mod rng;
+mod sched;
 mod sexp;
 mod spec;
 mod sut;
@@ -56,6 +58,23 @@ fn main() {
         }
         i += 2;
     }
+    if cmd == "digest" {
+        let lines = match id.as_str() {
+            "C15" => monitors::c15::digest(seed, (400.0 * scale * if tier == "thorough" { 50.0 } else { 1.0 }) as u64),
+            "C17" => monitors::c17::digest(seed, tier == "thorough", scale, threads),
+            _ => usage(),
+        };
+        let mut text = lines.join("\n");
+        text.push('\n');
+        std::fs::write(out.unwrap_or_else(|| usage()), text).expect("write digest");
+        return;
+    }
+    if cmd == "record" {
+        let (s, i) = only.clone().unwrap_or_else(|| usage());
+        let (input, rec) = monitors::c17::record(seed, &s, i);
+        println!("{}", json::J::obj(vec![("input", json::J::s(input)), ("record", json::J::s(rec))]).render());
+        return;
+    }
     if cmd != "run" {
         usage();
     }
@@ -65,6 +84,8 @@ fn main() {
     match id.as_str() {
         "C01" => monitors::c01::run(&ctx, &mut rep),
         "C02" => monitors::c02::run(&ctx, &mut rep),
+        "C03" => monitors::c03::run(&ctx, &mut rep),
+        "C04" => monitors::c04::run(&ctx, &mut rep),
         "C05" => monitors::c05::run(&ctx, &mut rep),
         "C06" => monitors::c06::run(&ctx, &mut rep),
         "C07" => monitors::c07::run(&ctx, &mut rep),
@@ -75,6 +96,8 @@ fn main() {
         "C19" => monitors::c19::run(&ctx, &mut rep),
         "C20" => monitors::c20::run(&ctx, &mut rep),
         "C13" => monitors::c13::run(&ctx, &mut rep),
+        "C15" => monitors::c15::run(&ctx, &mut rep),
+        "C16" => monitors::c16::run(&ctx, &mut rep),
         "C18" => monitors::c18::run(&ctx, &mut rep),
         "C08" => monitors::c08::run(&ctx, &mut rep),
         "C14" => monitors::c14::run(&ctx, &mut rep),
